@@ -36,7 +36,7 @@ theorem no_quit_no_exit (us : List Unit') (f : Files) (stdin : List Ev) (sched :
 
 /-- C12 (c): progress — once the main actor has been scheduled often enough it has terminated -/
 theorem main_terminates (us : List Unit') (f : Files) (stdin : List Ev) (sched : List Actor)
-    (hn : (remaining us f).length + us.length + 2 ≤ mainSteps sched) :
+    (hn : (remaining us f).length + 2 * us.length + 3 ≤ mainSteps sched) :
     (run us (initLoad f stdin) sched).main = .finished ∨ (run us (initLoad f stdin) sched).main = .exited := by
   apply terminates_of_steps
   rw [remaining_eq] at hn
@@ -45,7 +45,7 @@ theorem main_terminates (us : List Unit') (f : Files) (stdin : List Ev) (sched :
 
 /-- C12: hence without a `q` line every fair schedule prints the whole remaining stream -/
 theorem full_stream_without_quit (us : List Unit') (f : Files) (stdin : List Ev) (sched : List Actor)
-    (hq : NoQuit stdin) (hn : (remaining us f).length + us.length + 2 ≤ mainSteps sched) :
+    (hq : NoQuit stdin) (hn : (remaining us f).length + 2 * us.length + 3 ≤ mainSteps sched) :
     (run us (initLoad f stdin) sched).main = .finished ∧
     (run us (initLoad f stdin) sched).out = remaining us f := by
   have hnq := no_quit_no_exit us f stdin sched hq
@@ -116,10 +116,10 @@ theorem source_facts : Generated.Session.quitSrc = .shouldExit ∧ Generated.Ses
 
 /-! ## Sharper forms and necessity of the hypotheses -/
 
-/-- the exact step count: one main step per line, one per unit, one to find the queue empty
-(`main_terminates` allows one more) -/
+/-- the step count: one main step per line, at most two per unit (the pop; for a Markov level the generator's last
+call), one to find the queue empty (`main_terminates` allows one more) -/
 theorem main_terminates_tight (us : List Unit') (f : Files) (stdin : List Ev) (sched : List Actor)
-    (hn : (remaining us f).length + us.length + 1 ≤ mainSteps sched) :
+    (hn : (remaining us f).length + 2 * us.length + 2 ≤ mainSteps sched) :
     (run us (initLoad f stdin) sched).main = .finished ∨ (run us (initLoad f stdin) sched).main = .exited :=
   terminates_of_steps us f stdin sched hn
 
@@ -138,24 +138,25 @@ private def us3 : List Unit' := [.plain [[1], [2]], .markov [[3], [4], [5]], .pl
 private def us4 : List Unit' := [.plain [[1], [2]], .markov [[3], [4], [5]], .plain [[6]], .plain [[7]]]
 private def mains (n : Nat) : List Actor := List.replicate n .main
 
-/-- the step bound of `main_terminates_tight` is exact: 6 lines + 3 units + 1 = 10 main steps are
-needed, 9 are not enough -/
-example : (run us3 (initNew []) (mains 9)).main = .loopHead 3 ∧
-    (run us3 (initNew []) (mains 10)).main = .finished := by decide
+/-- the step count: 6 lines + 3 pops + 1 last generator call of the Markov level + 1 = 11 main steps are needed,
+10 are not enough (`main_terminates_tight` allows two steps per unit) -/
+example : (run us3 (initNew []) (mains 10)).main = .loopHead 3 ∧
+    (run us3 (initNew []) (mains 11)).main = .finished := by decide
 
 /-- (1) the keyboard thread dies at once on EOF (stdin closed / not a terminal) and is scheduled
 first: the session still prints everything.  (With a quit test reading "keyboard thread not alive"
 this schedule stops after 0 guesses.) -/
-example : (run us3 (initNew [.eof]) (.kbd :: mains 10)).kbd = .dead ∧
-    (run us3 (initNew [.eof]) (.kbd :: mains 10)).main = .finished ∧
-    (run us3 (initNew [.eof]) (.kbd :: mains 10)).out = fullStream us3 := by decide
+example : (run us3 (initNew [.eof]) (.kbd :: mains 11)).kbd = .dead ∧
+    (run us3 (initNew [.eof]) (.kbd :: mains 11)).main = .finished ∧
+    (run us3 (initNew [.eof]) (.kbd :: mains 11)).out = fullStream us3 := by decide
 
 example : NoQuit [.eof] ∧ NoQuit [.line "s" true, .line "h" false, .err] := by
   constructor <;> intro t f h <;> simp at h <;> grind
 
 /-- first session: `q` is typed while the Markov unit is being printed (after guess `[3]`) -/
 private def sess1 : St := run us4 (initNew [.line "q" false]) (mains 5 ++ [.kbd, .kbd] ++ mains 3)
-/-- second session, resumed from the files of the first; `q` is typed after the Markov rest -/
+/-- second session, resumed from the files of the first; `q` is handled after the last string of the restored level
+was printed and before the generator's last call (which finds nothing): the narrowest window -/
 private def sess2 : St := run us4 (initLoad sess1.files [.line "q" false]) (mains 1 ++ [.kbd, .kbd] ++ mains 3)
 /-- third session, resumed from the files of the second, runs to the end -/
 private def sess3 : St := run us4 (initLoad sess2.files []) (mains 10)
@@ -164,9 +165,9 @@ private def sess3 : St := run us4 (initLoad sess2.files []) (mains 10)
 session prints exactly that rest and then everything after it -/
 example : sess1.main = .exited ∧ sess1.out = [[1], [2], [3], [4]] ∧
     sess1.files = { savPos := some 2, omenOpt := true, omn := some [[5]] } ∧
-    (run us4 (initLoad sess1.files []) (mains 6)).main = .finished ∧
-    (run us4 (initLoad sess1.files []) (mains 6)).out = [[5], [6], [7]] ∧
-    sess1.out ++ (run us4 (initLoad sess1.files []) (mains 6)).out = fullStream us4 := by decide
+    (run us4 (initLoad sess1.files []) (mains 7)).main = .finished ∧
+    (run us4 (initLoad sess1.files []) (mains 7)).out = [[5], [6], [7]] ∧
+    sess1.out ++ (run us4 (initLoad sess1.files []) (mains 7)).out = fullStream us4 := by decide
 
 /-- (3) third cycle: the second session finishes the restored level, drops the option, is quit
 later; the third session prints no line of the Markov level again -/
@@ -200,10 +201,12 @@ example :
     let s := run us3 (initLoad f [.line "q" false]) ([.kbd, .kbd] ++ mains 2)
     s.main = .exited ∧ s.omenExit = false ∧ s.files.omenOpt = true := by decide
 
-/-- `initLoad` with the option set and an empty `.omn` remainder starts at the loop head and drops
-the option -/
-example : (initLoad { savPos := some 1, omenOpt := true, omn := some [] } []).main = .loopHead 1 ∧
-    (initLoad { savPos := some 1, omenOpt := true, omn := some [] } []).files.omenOpt = false := by decide
+/-- `initLoad` with the option set and an empty `.omn` remainder: the first main step (the generator call that finds
+nothing) reaches the loop head and drops the option -/
+example : (initLoad { savPos := some 1, omenOpt := true, omn := some [] } []).main = .omen 1 [] true ∧
+    (run us3 (initLoad { savPos := some 1, omenOpt := true, omn := some [] } []) (mains 1)).main = .loopHead 1 ∧
+    (run us3 (initLoad { savPos := some 1, omenOpt := true, omn := some [] } []) (mains 1)).files.omenOpt = false := by
+  decide
 
 /-- a status request whose printing fails kills the keyboard thread but does not stop the session;
 a `q` whose status printing fails is still honoured -/
